@@ -2,7 +2,10 @@
 
 Two parts: (1) sequential operation+fault histories (scenario / oracle / theories/C12/Model.v), described below;
 (2) one operation of a second thread (remove_rpc_object, make_*) racing with stop() in the creating thread
-(scenario_conc / oracle_conc / theories/C12/ConcModel.v, trace acceptance through C12.ConcCorr).
+(scenario_conc / oracle_conc / theories/C12/ConcModel.v, trace acceptance through C12.ConcCorr);
+(3) caller threads (blocking call, non-blocking call + wait, lock request; local proxy or a peer context over the fake
+network) racing with remove_rpc_object / stop of the object (scenario_call / oracle_call / theories/C12/CallModel.v, trace
+acceptance through C12.CallCorr): every call gets exactly one outcome, nothing of the call or the object is left behind.
 
 H3: the real QMI_Context / qmi.start / qmi.stop run in a forked child under the deterministic runtime
 (dsched) on the fake network.  One child per history.  A history is a list of operations with the
@@ -760,6 +763,8 @@ def scenario_call(s, op, callers, remote, line_yields):
 
     def hm(message):
         i = req_caller(message)
+        if i is None and role().startswith("C"):
+            i = int(role()[1:])                          # a lock request carries no arguments: local caller thread
         st["fut"][message.source_address.object_id] = i
         try:
             orig_hm(message)
@@ -793,6 +798,14 @@ def scenario_call(s, op, callers, remote, line_yields):
         if h is manager:
             labels.append((role(), "unreg", 0))
     router.unregister_message_handler = unreg
+
+    class HandlerMap(dict):                  # the router's handler table: log the look-up of the object by a caller thread
+        def get(self, k, d=None):
+            v = dict.get(self, k, d)
+            if k == "o1" and role().startswith("C"):
+                labels.append(("C", "hit" if v is manager else "miss", int(role()[1:])))
+            return v
+    poke(router, "_address_to_messagehandler_map", HandlerMap(router._address_to_messagehandler_map))
     orig_fhm = R.QMI_RpcFuture.handle_message
 
     def fhm(self, message):
@@ -808,8 +821,11 @@ def scenario_call(s, op, callers, remote, line_yields):
     st["wtid"] = s.by_real[wthread].tid
 
     if line_yields:
-        dsched.enable_line_yields([R.RpcObjectManager.handle_message, R.RpcObjectManager.stop, R._RpcThread.push_rpc_request,
-                                   R._RpcThread.run, R._RpcThread._reject_remaining_requests, C.QMI_Context.remove_rpc_object])
+        # every source line of the hand-over, of the manager's stop, of ALL the worker thread's own functions (its loop and
+        # its tail: shutdown check, rejection of the remaining requests, release - wherever that code lives) and of remove
+        worker_fns = [f for n, f in vars(R._RpcThread).items() if callable(f) and not n.startswith("__")]
+        dsched.enable_line_yields([R.RpcObjectManager.handle_message, R.RpcObjectManager.stop, C.QMI_Context.remove_rpc_object]
+                                  + worker_fns)
 
     def caller(i, how, method):
         try:
@@ -850,6 +866,7 @@ def scenario_call(s, op, callers, remote, line_yields):
         t.join()
     s.recording = False
     obs["phase"] = "after"
+    obs["lab1"] = len(labels)
 
     def alive():
         th = {}
@@ -927,6 +944,27 @@ def oracle_call(op, callers, res):
     if [h for h in o.get("client_handlers", []) if h.startswith("$future")]:
         return "call:%s:client-handlers-left" % op, "the calling context still holds %r" % (o["client_handlers"],)
     return None
+
+
+CLAB = {"hit": "LHit", "miss": "LMiss", "accept": "LAccept", "refused": "LRefused", "done": "LDone", "answer": "LExec",
+        "reject": "LReject", "sweep": "LSweep"}
+
+
+def coq_call_case(op, callers, o):
+    tr = []
+    for who, kind, i in [tuple(x) for x in o["labels"][o["lab0"]:o["lab1"]]]:
+        if kind in CLAB:
+            if i is not None:
+                tr.append("%s %d" % (CLAB[kind], i))
+        elif kind == "release":
+            tr.append("LRelease")
+        elif who == "S" and kind in ("unreg", "stopregion", "joined"):
+            tr.append({"unreg": "LUnreg", "stopregion": "LStopRegion", "joined": "LJoined"}[kind])
+    outs = []
+    for i in range(len(callers)):
+        x = o["outcomes"].get(str(i))
+        outs.append("None" if x is None else "(Some OVal)" if (x[0] == "val" or x[1] == "ValueError") else "(Some OErr)")
+    return "(%s, %d, %s, %s)" % (cbool(op == "stop"), len(callers), clist(tr), clist(outs))
 
 
 def gen_call(rng):
@@ -1305,6 +1343,10 @@ def run(ck):
         "interleaving model theories/C12/ConcModel.v of remove/make racing with stop, tied by trace acceptance: the effects on the object map, "
         "the handler map and the worker threads recorded from every concurrent run (logging dict in place of _rpc_object_map, wrapped "
         "register/unregister_message_handler and RpcObjectManager.stop) must be a path of the model ending in the observed outcome",
+        "interleaving model theories/C12/CallModel.v of calls racing with remove/stop (hand-over of a request = one region with the running "
+        "check), tied by trace acceptance: handler look-ups (logging dict in place of the router's handler table), the regions of the "
+        "manager's _stop_lock (logging wrapper), push_rpc_request, replies delivered to the futures, release, unregister and join recorded "
+        "from every run with local callers must be a path of the model ending in the observed outcomes",
         "harness stubs: instrumented QMI_RpcObject / QMI_Instrument / QMI_Task / QMI_TaskRunner subclasses, wrapped _ContextRpcObject "
         "__init__/release_rpc_object (id + release counter), helper peer context 'srv'",
     ]
@@ -1312,8 +1354,13 @@ def run(ck):
         "the operation histories are sequential (one caller thread, 1-3 random schedules each); concurrency is covered for ONE racing "
         "operation: remove_rpc_object or make_rpc_object/make_instrument/make_task in a second thread against stop() in the creating thread "
         "(random + PCT schedules with line-level switch points inside remove_rpc_object, _internal_make_rpc_object, stop, "
-        "_stop_rpc_objects, and DFS with <= 2 preemptions at synchronisation granularity on two short scenarios); other pairs "
+        "_stop_rpc_objects, and DFS with <= 2 preemptions at synchronisation granularity on two short scenarios), and for 1-3 "
+        "caller threads (blocking / non-blocking call, lock request, local or through a peer context) against remove_rpc_object or "
+        "stop() of the called object (line-level switch points inside RpcObjectManager.handle_message / stop, all functions of the "
+        "worker thread class and remove_rpc_object; DFS with <= 2 preemptions on the one-caller scenario); other pairs "
         "(make||make, remove||remove, anything racing with start) are not explored",
+        "the call model (CallModel.v) is proved by reflection for remove and stop with 1 and 2 callers; its trace acceptance is run for "
+        "local callers only (runs through the peer context are judged by the oracle alone)",
         "the interleaving model (ConcModel.v) treats each region under _rpc_object_map_lock, each register/unregister and each manager.stop() "
         "as atomic; its theorems are reflection proofs over 32+32 listed finite instances (<= 3 objects), not over arbitrary populations",
         "the CLASS of an injected fault is part of the fault: constructors, release_rpc_object and stop handlers raise RuntimeError, a custom "
@@ -1380,12 +1427,14 @@ def run(ck):
                       d[-60:], ": " + fl[1] if fl else " (the property oracle passes on it)"),
                   dict(rep, impl_outs=[o["out"] for o in obs], broken="correspondence C12.Corr.check_case"), found_input=bool(fl))
     run_conc(ck)
+    run_call(ck)
     return ck.finish("seeded random operation+fault histories (length <= 12, both modes) + %d scripted, each under 1-3 random schedules; "
                      "non-trivial = at least one successful make or stop; distinct by (history, schedule); plus concurrent runs (remove / make "
                      "in a second thread racing with stop) under random, PCT and bounded-DFS schedules, all non-trivial" % len(SCRIPTED),
                      "Sequential clauses: proof over all histories + step-by-step correspondence.  Concurrent clause (an operation of another "
                      "thread racing with stop): proof for every interleaving of the atomic regions on the listed finite instances + trace acceptance "
-                     "of sampled real schedules + oracle; weaker than the sequential clauses (finite instances, one racing operation, sampled schedules).")
+                     "of sampled real schedules + oracle; weaker than the sequential clauses (finite instances, one racing operation, sampled schedules).  "
+                     "Calls through proxies racing with remove/stop: same kind of claim (CallModel.v, 1-2 callers proved, 1-3 sampled).")
 
 
 def run_conc(ck):
@@ -1460,6 +1509,77 @@ def run_conc(ck):
                   dict(tmeta[i], broken="correspondence C12.ConcCorr.check_case (trace acceptance)"), found_input=bool(fl))
 
 
+def run_call(ck):
+    """Calls through a proxy (blocking, non-blocking + wait, lock requests; local proxies and a peer context) racing with
+    remove_rpc_object / stop of the object; line-level switch points inside the hand-over and the worker's tail."""
+    rng = ck.rng
+    nconf = 70 if ck.tier == "quick" else 900
+    confs = [("remove", [("block", "ping")], False), ("remove", [("nb", "ping"), ("block", "boom")], False),
+             ("stop", [("block", "ping"), ("nb", "islocked")], False), ("remove", [("block", "ping")], True)]
+    confs += [gen_call(rng) for _ in range(nconf)]
+    jobs, meta = [], []
+    for ci, (op, callers, remote) in enumerate(confs):
+        for j in range(9 if ci < 4 else 4):
+            strat = "pct" if j % 3 == 2 else "random"
+            seed = rng.randrange(1 << 30)
+            ly = j % 4 != 3
+            jobs.append((scenario_call, (op, callers, remote, ly), dict(strategy=strat, seed=seed, switch_prob=rng.choice([0.2, 0.4, 0.7]))))
+            meta.append((op, callers, remote, ly, strat, seed))
+    results = dsched.run_forked(jobs, nproc=16, wall_timeout=60.0)
+    dfs = []
+    nmax = 250 if ck.tier == "quick" else 2500
+    for res in dsched.explore_dfs(scenario_call, ("remove", [("block", "ping")], False, False), preemption_bound=2, max_runs=nmax,
+                                  nproc=16, wall_timeout=60.0):
+        if res["status"] == "_summary":
+            ck.coverage.setdefault("conc_dfs", {})["call-vs-remove/1"] = {
+                "runs": res["runs"], "exhausted_within_preemption_bound": res["exhausted"], "bound": 2}
+            continue
+        dfs.append((("remove", [("block", "ping")], False, False, "replay", None), res))
+    terms, tmeta, flagged = [], [], {}
+    for (op, callers, remote, ly, strat, seed), res in list(zip(meta, results)) + dfs:
+        o = res.get("obs") or {}
+        ck.note_case(("call", op, callers, remote, ly, res.get("choices")), True)
+        ck.count("call:%s:%s%s" % (op, res["status"], ":remote" if remote else ""))
+        for x in (o.get("outcomes") or {}).values():
+            ck.count("call:%s:outcome:%s" % (op, x[0] if x[0] == "val" else x[1]))
+        rep = {"call": True, "op": op, "callers": [list(c) for c in callers], "remote": remote, "line_yields": ly, "strategy": strat,
+               "seed": seed, "schedule": res.get("choices"), "status": res["status"]}
+        bad = oracle_call(op, callers, res)
+        if bad:
+            ck.count("call-oracle-flagged")
+            ck.report(bad[0], "C12 fails on the implementation (call racing with %s): %s" % (op, bad[1]),
+                      dict(rep, labels=o.get("labels"), outcomes=o.get("outcomes")))
+        if res["status"] == "ok" and not remote:
+            flagged[len(terms)] = bad
+            terms.append(coq_call_case(op, callers, o))
+            tmeta.append(dict(rep, labels=o.get("labels"), outcomes=o.get("outcomes")))
+    ck.coverage["call_runs"] = len(meta) + len(dfs)
+    badi = ck.run_model("C12.CallCorr", "check_case", terms, "case", shard=150)
+    ck.coverage["call_runs_accepted_by_model"] = len(terms) - len(badi)
+    for i in badi[:3]:
+        fl = flagged.get(i)
+        ck.report("corr-call:%s:%s" % (tmeta[i]["op"], "oracle-fails" if fl else "model-differs"),
+                  "a real schedule of calls racing with %s is not a path of the interleaving model in which the hand-over of a request is one "
+                  "region with the running check (or ends in other outcomes)%s" % (tmeta[i]["op"], ": " + fl[1] if fl else "; the property oracle passes on it"),
+                  dict(tmeta[i], broken="correspondence C12.CallCorr.check_case (trace acceptance)"), found_input=bool(fl))
+
+
+def replay_call(c):
+    _preload()
+    callers = [tuple(x) for x in c["callers"]]
+    kw = dict(strategy="replay", schedule=list(c["schedule"])) if c.get("schedule") is not None else dict(strategy=c["strategy"], seed=c["seed"])
+    res = dsched.run_forked([(scenario_call, (c["op"], callers, c["remote"], c["line_yields"]), kw)], nproc=1, wall_timeout=60.0)[0]
+    o = res.get("obs") or {}
+    print("status:", res["status"], res.get("info") or "")
+    print("owner thread:", c["op"], "->", o.get("main"), " callers:", callers, "remote" if c["remote"] else "local")
+    print("outcomes:", o.get("outcomes"), " phase:", o.get("phase"))
+    print("effects in order:", [tuple(x) for x in o.get("labels") or []])
+    print("handlers after:", o.get("handlers_after"), "worker alive:", o.get("worker_alive"), "re-use of the name:", o.get("reuse"))
+    bad = oracle_call(c["op"], callers, res)
+    print("oracle:", bad or "property holds on this schedule")
+    return 1 if bad else 0
+
+
 def replay_conc(c):
     _preload()
     pop = [tuple(x) for x in c["pop"]]
@@ -1482,6 +1602,8 @@ def replay(rep):
     c = rep["case"]
     if c.get("concurrent"):
         return replay_conc(c)
+    if c.get("call"):
+        return replay_call(c)
     _preload()
     ops = [tuple(o) for o in c["ops"]]
     kw = dict(strategy="replay", schedule=list(c["schedule"])) if c.get("schedule") else dict(strategy=c.get("strategy", "random"), seed=c.get("seed", 0))
